@@ -274,7 +274,14 @@ func init() {
 				fail("ServerConnection.%s not found", fn)
 				return nil
 			}
+			rank := c06canonRank(fd.Body)
+			var at []int
 			ast.Inspect(fd.Body, func(n ast.Node) bool {
+				defer func() { // what this visit appended to res is ranked by the statement that holds n
+					for n != nil && len(at) < len(res) {
+						at = append(at, rank(n.Pos()))
+					}
+				}()
 				switch x := n.(type) {
 				case *ast.CompositeLit:
 					code, st, ok := c06respLit(x, en)
@@ -307,6 +314,17 @@ func init() {
 				}
 				return true
 			})
+			// normalised source order (c06canonRank): which of two exclusive branches is written first does not matter
+			order := make([]int, len(res))
+			for i := range order {
+				order[i] = i
+			}
+			sort.SliceStable(order, func(a, b int) bool { return at[order[a]] < at[order[b]] })
+			sorted := make([][2]string, 0, len(res))
+			for _, i := range order {
+				sorted = append(sorted, res[i])
+			}
+			res = sorted
 			return res
 		}
 		emitStatuses := func(name string, st [][2]string) {
@@ -314,7 +332,7 @@ func init() {
 			for _, s := range st {
 				ps = append(ps, fmt.Sprintf("(%s, %s)", s[0], leanBytes(s[1])))
 			}
-			fmt.Fprintf(b, "/-- (status code, status text) of every response built in server.go %s, source order: %q -/\ndef %s : List (Nat × List Nat) := [%s]\n", name, st, name, strings.Join(ps, ", "))
+			fmt.Fprintf(b, "/-- (status code, status text) of every response built in server.go %s, source order (branches of a negated test positive-first): %q -/\ndef %s : List (Nat × List Nat) := [%s]\n", name, st, name, strings.Join(ps, ", "))
 		}
 		emitStatuses("handshakeStatuses", statuses("handshake"))
 		emitStatuses("upgradeStatuses", statuses("upgrade"))
